@@ -21,6 +21,12 @@ CHECKS = {
          'Every request kind with refusal-heavy argument pools; exactly one answer, right type or an acceptable error code, and no effect of refused requests (relays, later handed state).', '4 C04'),
  'C05': ('exploration', 'runtime monitoring: reference-model monitor over attack-profile histories (foreign delete / pose / asset attempts) with probe comparison',
          'Foreign attempts on every (requester, entity) kind including after the owner left; answers, silence behind barriers and the state handed to later joiners are checked.', '4 C05'),
+ 'C07': ('exploration', 'runtime monitoring: registry reference model over sequential histories + gated interleavings (injected scheduling points) with probe / gauge / goroutine-census oracles',
+         'Create-join-switch-leave histories with id reuse judged by the model, probes, the session gauge and a frame-worker census; the dangerous overlaps (join x last departure, two last departures, late unregistration x creation) are forced with gates at scheduling points injected by the build overlay.', '4 C07'),
+ 'C08': ('fault_enumeration', 'runtime monitoring: liveness oracles (process alive, normal-path departure exactly once, witnesses, gauges, goroutine census, panic log scan) over an enumerated catalogue of hostile inputs x life phases and thousands of failing bursts',
+         'Every offence of an enumerated catalogue (structural messages of core and modules with absent fields / boundary scalars, byte-level frames, broken WebSocket framing, bursts) is placed at each life phase against a child process with witnesses in the same and another session.', '4 C08'),
+ 'C09': ('exploration', 'sanitizer: Go race detector over repeated storms of 2-16 unsynchronised clients (free-running and jittered at injected scheduling points) + wedge / runtime-fatal / never-completed oracles',
+         'A -race build of the lab SUT with the production decorators and all modules is driven by repeated concurrent storms; any race report with a hagall frame, runtime fatal, request that never completes or goroutine left parked in hagall code is a violation.', '4 C09'),
  'C12': ('exploration', 'runtime monitoring: map reference model over component histories at the wire',
          'Component requests with ids that exist / never existed / no longer exist; answers, LIST contents, handed state and cascades are compared with a map model.', '4 C12'),
  'C13': ('exploration', 'runtime monitoring: subscription-entitlement oracle over recorded per-connection notification streams',
@@ -34,8 +40,11 @@ CHECKS = {
 }
 
 ENGINES = [
- {'name': 'E1 seq', 'path': 'internal/e1', 'serves_properties': ['C01','C02','C03','C04','C05','C12','C13','C14','C16','C17'], 'kind_free_text': 'sequential histories on the lab SUT judged by the reference model (internal/model), the view fold and probes'},
+ {'name': 'E1 seq', 'path': 'internal/e1', 'serves_properties': ['C01','C02','C03','C04','C05','C07','C12','C13','C14','C16','C17'], 'kind_free_text': 'sequential histories on the lab SUT judged by the reference model (internal/model), the view fold and probes'},
  {'name': 'E5 diff', 'path': 'internal/e1/diff.go', 'serves_properties': ['C03','C17'], 'kind_free_text': 'one recorded history, two runs (other sessions removed / flag set), normalised stream equality'},
+ {'name': 'E2 gated', 'path': 'internal/e2', 'serves_properties': ['C07'], 'kind_free_text': 'gated interleavings at injected scheduling points (verifrt sched mode), order-free oracles at quiescence'},
+ {'name': 'E3 race', 'path': 'internal/e3', 'serves_properties': ['C09'], 'kind_free_text': 'client storms on -race builds, race-report extraction and deduplication'},
+ {'name': 'E4 fault', 'path': 'internal/e4', 'serves_properties': ['C08'], 'kind_free_text': 'offence catalogue x life phase, bursts; liveness oracles'},
  {'name': 'overlay+verifrt', 'path': 'internal/instr, overlaysrc/verifrt', 'serves_properties': [], 'kind_free_text': 'go/ast source instrumenter writing a build overlay of the current /repo tree; scheduling-point runtime (jitter, gates)'},
  {'name': 'lab SUT', 'path': 'sut/labsut', 'serves_properties': [], 'kind_free_text': 'harness-owned main wiring the same packages as cmd/main.go; always a child process'},
 ]
